@@ -210,6 +210,51 @@ fn check_ctx(st: &mut St, trace: u128, span: u64, sampled: bool) {
         if serde_json::from_str::<SpanId>(&sj).ok() != Some(s) {
             bad.push(format!("SpanId serde round trip failed for {}", sj));
         }
+        // the same text through deserializers that cannot lend out a slice of their input
+        // (an owned Value, a reader, text with an escape sequence, serde's own string
+        // deserializers): "through serde" is not only `from_str`
+        let tv = serde_json::to_value(t).ok();
+        if tv.clone().and_then(|v| serde_json::from_value::<TraceId>(v).ok()) != Some(t) {
+            bad.push(format!("TraceId does not round-trip through serde_json::Value ({:?})", tv));
+        }
+        let sv = serde_json::to_value(s).ok();
+        if sv.clone().and_then(|v| serde_json::from_value::<SpanId>(v).ok()) != Some(s) {
+            bad.push(format!("SpanId does not round-trip through serde_json::Value ({:?})", sv));
+        }
+        if serde_json::from_reader::<_, TraceId>(tj.as_bytes()).ok() != Some(t) {
+            bad.push(format!("TraceId does not deserialize from a reader ({})", tj));
+        }
+        if serde_json::from_reader::<_, SpanId>(sj.as_bytes()).ok() != Some(s) {
+            bad.push(format!("SpanId does not deserialize from a reader ({})", sj));
+        }
+        // the first character written as a JSON escape: the same string value
+        let esc = |j: &str| -> String {
+            let inner = &j[1..j.len() - 1];
+            let mut it = inner.chars();
+            match it.next() {
+                Some(c) => format!("\"\\u{:04x}{}\"", c as u32, it.as_str()),
+                None => j.to_string(),
+            }
+        };
+        if serde_json::from_str::<TraceId>(&esc(&tj)).ok() != Some(t) {
+            bad.push(format!("TraceId does not deserialize from escaped JSON text {}", esc(&tj)));
+        }
+        if serde_json::from_str::<SpanId>(&esc(&sj)).ok() != Some(s) {
+            bad.push(format!("SpanId does not deserialize from escaped JSON text {}", esc(&sj)));
+        }
+        {
+            use serde::de::value::{Error as DeErr, StrDeserializer, StringDeserializer};
+            use serde::de::IntoDeserializer;
+            use serde::Deserialize;
+            let d: StringDeserializer<DeErr> = td.clone().into_deserializer();
+            if TraceId::deserialize(d).ok() != Some(t) {
+                bad.push(format!("TraceId does not deserialize from an owned String ({})", td));
+            }
+            let d: StrDeserializer<DeErr> = sd.as_str().into_deserializer();
+            if SpanId::deserialize(d).ok() != Some(s) {
+                bad.push(format!("SpanId does not deserialize from a transient &str ({})", sd));
+            }
+        }
         bad
     }));
     match r {
